@@ -4,11 +4,13 @@
 (* removal / re-kinding.                                                   *)
 (*                                                                         *)
 (* Shape P (two-version histories).  State = <<old, new, log>>:            *)
-(*   * Init picks a base package (old = new): a top package `pkg` whose    *)
-(*     __init__ re-exports names of one defining module M (named `mod` or  *)
-(*     `_mod`), optional __all__ in both, an optional dangling re-export   *)
-(*     (`from extlib import ext`), an optional cyclic one (pkg.cyc ->      *)
-(*     pkg.M.cyc -> pkg.cyc); M defines class B {bm}, class K[(B)]         *)
+(*   * Init picks a base package (old = new): a top package `pkg` with one  *)
+(*     defining module M (named `mod` or `_mod`) and a re-export site that *)
+(*     imports names of M: pkg/__init__ (walked before M) or the public    *)
+(*     sibling module pkg/zapi (walked after M); optional __all__ in M and *)
+(*     in the site, an optional dangling re-export (`from extlib import    *)
+(*     ext`), an optional cyclic one (site.cyc -> pkg.M.cyc -> site.cyc);  *)
+(*     M defines class B {bm}, class K[(B)]                                *)
 (*     {km, _kp}, function f, attribute x, private attribute _p;           *)
 (*   * every action is one edit of the catalogue applied to `new`          *)
 (*     (compatible: AddPublic, AddOptKw, AddReturn, AddBase; incompatible: *)
